@@ -60,7 +60,7 @@ func (g *gctx) natSubset() [4]bool {
 }
 
 func (g *gctx) nspec(kind int) *NSpec {
-	sp := &NSpec{ID: g.id(), Kind: kind, Nat: g.natSubset(), Pol: g.r.Intn(4), Live: g.r.Chance(1, 2), Pipe: g.r.Intn(4)}
+	sp := &NSpec{ID: g.id(), Kind: kind, Nat: g.natSubset(), Pol: g.r.Intn(4), Live: g.r.Chance(1, 2), Pipe: g.r.Intn(4), Spare: g.r.Intn(4)}
 	if kind == 2 {
 		sp.K1, sp.K2 = g.key(), g.key()
 	}
@@ -300,7 +300,7 @@ func possKeys(p *Prog, in map[int]bool) map[int]bool {
 		add(inner(in))
 	}
 	switch p.Op {
-	case "pass", "skip":
+	case "pass", "skip", "direct":
 		add(in)
 	case "node":
 		wrapped(func(map[int]bool) map[int]bool {
@@ -334,7 +334,8 @@ func possKeys(p *Prog, in map[int]bool) map[int]bool {
 // fresh output key: a shared key is outside the property's domain (finding F-C04) and is
 // only produced deliberately (inject dupkey).
 func (g *gctx) disjointKids(kids []stageOut, curT bool, curKeys []int) {
-	in := map[int]bool{}
+	// -1 stands for "whatever else comes in": two kids that hand their input on always clash
+	in := map[int]bool{-1: true}
 	for _, k := range curKeys {
 		in[k] = true
 	}
@@ -390,6 +391,13 @@ func (g *gctx) genPar(curT bool, curKeys []int, depth int, single bool) stageOut
 	}
 	n := g.r.Range(2, 3)
 	var outs []stageOut
+	if curT && g.inject == "" && g.r.Chance(1, 3) {
+		// one kid is no node at all: a direct edge from the predecessor(s) to the fan-in node, next
+		// to the paths through the other kids (the predecessor's stream is copied, one copy is merged
+		// as it is)
+		outs = append(outs, stageOut{&Prog{Op: "direct"}, curKeys, single, false})
+		n--
+	}
 	for i := 0; i < n; i++ {
 		outs = append(outs, g.genSeq(curT, curKeys, true, depth+1, g.r.Range(1, 2), false, single))
 	}
@@ -403,6 +411,58 @@ func (g *gctx) genPar(curT bool, curKeys []int, depth int, single bool) stageOut
 		deferred = deferred || k.deferred
 	}
 	return stageOut{&Prog{Op: "par", Kids: kids}, keys, false, deferred}
+}
+
+// arrayProfile makes the node's output stream in stream mode array-backed (no Transform
+// native, so the Stream native - or a boxed value - is what the run gets; no pipe) over a
+// slice with spare capacity, three times out of four
+func (g *gctx) arrayProfile(sp *NSpec) {
+	if !g.r.Chance(3, 4) {
+		return
+	}
+	sp.Nat = [4]bool{g.r.Chance(1, 3), true, g.r.Chance(1, 3), false}
+	if g.r.Chance(1, 4) {
+		sp.Nat[1] = false // a value in a one-element array
+		if !sp.Nat[0] && !sp.Nat[2] {
+			sp.Nat[0] = true
+		}
+	}
+	sp.Pipe, sp.Spare = 0, g.r.Range(1, 3)
+}
+
+// genShared: one map producer whose output goes, by direct edges, to several fan-in nodes,
+// each of which also receives the output of a node of its own (fed by the same producer):
+//
+//	a -> b_i -> m_i,  a -> m_i   (i = 1..n),   the m_i fan in again
+//
+// In stream mode a's stream is copied 2n times and one copy is merged at every m_i.
+func (g *gctx) genShared(curT bool, curKeys []int) stageOut {
+	g.budget--
+	a := g.nspec(kindOf(curT, true))
+	g.arrayProfile(a)
+	aKeys := []int{a.K1}
+	if a.Kind == 2 {
+		aKeys = []int{a.K1, a.K2}
+	}
+	n := g.r.Range(2, 3)
+	var kids []*Prog
+	var keys []int
+	for i := 0; i < n; i++ {
+		g.budget -= 2
+		b := g.nspec(3) // a map of its own, next to a's
+		g.arrayProfile(b)
+		m := g.nspec(1)
+		ok := g.key()
+		keys = append(keys, ok)
+		fan := &Prog{Op: "par", Kids: []*Prog{{Op: "direct"}, {Op: "node", N: b}}}
+		if g.r.Chance(1, 2) {
+			fan.Kids[0], fan.Kids[1] = fan.Kids[1], fan.Kids[0]
+		}
+		kids = append(kids, &Prog{Op: "seq", Kids: []*Prog{fan, {Op: "node", W: &Wrap{Out: &ok}, N: m}}})
+	}
+	_ = aKeys
+	p := &Prog{Op: "seq", Kids: []*Prog{{Op: "node", N: a}, {Op: "par", Kids: kids}}}
+	return stageOut{p, keys, false, false}
 }
 
 // genMulti: a multi-branch; every alternative produces a map with its own keys, the selected
@@ -495,6 +555,8 @@ func (g *gctx) genSeq(tin bool, keys []int, tout bool, depth int, nStages int, a
 			wantT = false
 			st = g.genLoop(depth)
 			isLoop = true
+		case depth == 0 && g.budget >= 5 && g.inject == "" && wantT && !afterLoop && !(first && altStart) && g.r.Chance(1, 8):
+			st = g.genShared(curT, curKeys)
 		case roll < 2 && deep && wantT && !(first && altStart) && !afterLoop && single && g.inject == "" && g.r.Chance(1, 3):
 			st = g.genMulti(curT, curKeys, depth)
 		case roll < 2 && deep && wantT && !(first && altStart) && !afterLoop:
